@@ -582,6 +582,51 @@ func checkC15(c *Ctx) {
 		c.Check(ok && len(ways) == 1, "C15.4", "isDuplicate: seq <= highest proposed for that client", p.FuncPos(dup),
 			"true exactly when cmd.SequenceNumber <= clientSeqNumbers[cmd.ClientID]", "unexpected comparison in isDuplicate")
 	}
+	// Proposed looks at every command of the batch: whether one command is already marked says nothing about the others
+	// (several clients share a batch), so the only way out of the marking is the end of the batch
+	{
+		fp := NewFlow(p, proposed)
+		var early []string
+		nLoop := 0
+		for _, hf := range helperClosure(p, proposed, 1) {
+			for _, b := range hf.Blocks {
+				for _, in := range b.Instrs {
+					ph, ok := in.(*ssa.Phi)
+					if !ok {
+						break
+					}
+					if ph.Comment == "rangeindex" || (isLoopHeaderPhi(ph) && len(counterIncrements(ph)) > 0) {
+						nLoop++
+						// every return of this function lies behind the loop's normal exit
+						for _, r := range returnsOf(hf) {
+							if r.Block() == hf.Recover {
+								continue // the synthetic exit taken after a recovered panic
+							}
+							if !b.Dominates(r.Block()) {
+								early = append(early, p.Pos(r.Pos())+" (before the loop)")
+								continue
+							}
+							for _, su := range b.Succs {
+								if !su.Dominates(r.Block()) && su != r.Block() {
+									continue
+								}
+							}
+							// a return inside the loop body: reachable from the body without passing the header again
+							if len(b.Succs) == 2 {
+								body := b.Succs[0]
+								if body.Dominates(r.Block()) {
+									early = append(early, p.Pos(r.Pos())+" (inside the loop)")
+								}
+							}
+						}
+					}
+				}
+			}
+		}
+		_ = fp
+		c.Check(nLoop > 0 && len(early) == 0, "C15.4", "Proposed: every command of the batch is examined", p.FuncPos(proposed),
+			"the marking loop runs over the whole batch: no return before it or inside it", "Proposed can return at "+join(early)+" without examining the rest of the batch: commands of other clients in the same batch stay unmarked and are proposed again")
+	}
 	// Proposed: monotone per client
 	{
 		fl := NewFlow(p, proposed)
